@@ -266,6 +266,8 @@ pub struct ClientCtx {
     pub scopes: Vec<Slot<Rc<Tracked<LifetimeScope>>>>,
     pub lts: Vec<Slot<Lifetime>>,
     pub shutdown_requested: Cell<bool>,
+    /// the driver has seen `Client::run()` return
+    pub stopped: Cell<bool>,
     /// a pending reply was dropped and the client has not verifiably processed the abort yet
     pub abort_dirty: Cell<bool>,
     pub cancel: Cancel,
@@ -293,6 +295,7 @@ impl ClientCtx {
             scopes: slots(NSCOPE),
             lts: slots(NLT),
             shutdown_requested: Cell::new(false),
+            stopped: Cell::new(false),
             abort_dirty: Cell::new(false),
             cancel: Cancel::default(),
         })
@@ -402,6 +405,10 @@ pub struct ChanInfo {
     pub claim_inflight: bool,
     /// a claim of the other end has succeeded
     pub claim_ok: bool,
+    /// how often the unclaimed end has been bound
+    pub binds: u32,
+    /// capacity the receiver was created / claimed with
+    pub rcv_cap: u32,
     pub claim_attempts: u32,
     /// clients that hold (or held) an end
     pub parties: BTreeSet<usize>,
@@ -478,6 +485,10 @@ pub struct World {
     pub allow_refused_claims: bool,
     pub allow_late_abort: bool,
     pub allow_listener_after_destroy: bool,
+    pub allow_broker_shutdown_in_flight: bool,
+    /// for `Op::BrokerShutdown`
+    pub broker: RefCell<Option<aldrin_broker::BrokerHandle>>,
+    pub broker_shutdown_requested: Cell<bool>,
     pub trace_on: bool,
     /// resources whose producer failed or was skipped: (client or BOARD, resource)
     pub res_failed: RefCell<BTreeSet<(usize, Res)>>,
@@ -501,6 +512,9 @@ impl World {
             allow_refused_claims: allow.refused_claims,
             allow_late_abort: allow.late_abort,
             allow_listener_after_destroy: allow.listener_after_destroy,
+            allow_broker_shutdown_in_flight: allow.broker_shutdown_in_flight,
+            broker: RefCell::new(None),
+            broker_shutdown_requested: Cell::new(false),
             trace_on: true,
             res_failed: RefCell::new(BTreeSet::new()),
             res_wakers: RefCell::new(vec![]),
@@ -925,6 +939,33 @@ async fn exec(w: &Rc<World>, t: &Rc<TaskCtx>, cc: &Rc<ClientCtx>, op: &Op) -> St
             "ok".into()
         }
 
+        Op::BrokerShutdown => {
+            if w.broker_shutdown_requested.get() {
+                return skip(w);
+            }
+            let bh = w.broker.borrow().clone();
+            let Some(mut bh) = bh else { return skip(w) };
+            if !w.allow_broker_shutdown_in_flight {
+                w.count("excluded:f7");
+                return "excluded:f7".into();
+            }
+            w.broker_shutdown_requested.set(true);
+            let in_flight = w.tasks.borrow().iter().filter(|x| matches!(&*x.blocked.borrow(), Some(b) if b.class == Class::Request)).count();
+            if in_flight > 0 {
+                w.count("broker-shutdown-in-flight");
+            }
+            if w.clients.iter().any(|c| c.shutdown_requested.get() && !c.stopped.get()) {
+                w.count("client-shutdown-races-broker-shutdown");
+            }
+            for c in w.clients.iter() {
+                w.note_client_teardown(c.idx);
+                c.shutdown_requested.set(true);
+            }
+            t.block(Class::Request, "broker_shutdown", None, None, bh.shutdown()).await;
+            w.count("op:broker-shutdown");
+            "ok".into()
+        }
+
         Op::CreateObject { o, u } => {
             let Some(h) = cc.h() else { return skip(w) };
             let t0 = w.now();
@@ -1242,7 +1283,7 @@ async fn exec(w: &Rc<World>, t: &Rc<TaskCtx>, cc: &Rc<ClientCtx>, op: &Op) -> St
                     let txt = res_name(&r);
                     if let Ok((snd, rcv)) = r {
                         let cookie = snd.cookie().0;
-                        w.board.borrow_mut().chans.insert(cookie, ChanInfo { creator: ci, creator_end: End::Snd, creator_alive: true, bound: false, claim_inflight: false, claim_ok: false, claim_attempts: 0, parties: [ci].into_iter().collect() });
+                        w.board.borrow_mut().chans.insert(cookie, ChanInfo { creator: ci, creator_end: End::Snd, creator_alive: true, bound: false, claim_inflight: false, claim_ok: false, binds: 0, rcv_cap: 0, claim_attempts: 0, parties: [ci].into_iter().collect() });
                         replace_end_snd(w, cc, *ch, Some(SndEnd::Pending(snd)));
                         replace_end_rcv(w, cc, *ch, Some(RcvEnd::Unclaimed(rcv)));
                     }
@@ -1253,7 +1294,7 @@ async fn exec(w: &Rc<World>, t: &Rc<TaskCtx>, cc: &Rc<ClientCtx>, op: &Op) -> St
                     let txt = res_name(&r);
                     if let Ok((snd, rcv)) = r {
                         let cookie = snd.cookie().0;
-                        w.board.borrow_mut().chans.insert(cookie, ChanInfo { creator: ci, creator_end: End::Rcv, creator_alive: true, bound: false, claim_inflight: false, claim_ok: false, claim_attempts: 0, parties: [ci].into_iter().collect() });
+                        w.board.borrow_mut().chans.insert(cookie, ChanInfo { creator: ci, creator_end: End::Rcv, creator_alive: true, bound: false, claim_inflight: false, claim_ok: false, binds: 0, rcv_cap: CAPS[*cap as usize], claim_attempts: 0, parties: [ci].into_iter().collect() });
                         replace_end_snd(w, cc, *ch, Some(SndEnd::Unclaimed(snd)));
                         replace_end_rcv(w, cc, *ch, Some(RcvEnd::Pending(rcv)));
                     }
@@ -1313,6 +1354,7 @@ async fn exec(w: &Rc<World>, t: &Rc<TaskCtx>, cc: &Rc<ClientCtx>, op: &Op) -> St
                     } else {
                         i.bound = true;
                     }
+                    i.binds += 1;
                 }
             }
             // the slot is overwritten: the previous end is dropped
@@ -1381,6 +1423,7 @@ async fn exec(w: &Rc<World>, t: &Rc<TaskCtx>, cc: &Rc<ClientCtx>, op: &Op) -> St
                         Ok(s) => {
                             if let Some(i) = w.board.borrow_mut().chans.get_mut(&cookie) {
                                 i.claim_ok = true;
+                                i.rcv_cap = CAPS[*cap as usize];
                             }
                             drop(cc.rcv[*ch as usize].put_back(RcvEnd::Est(s)))
                         }
@@ -1393,6 +1436,82 @@ async fn exec(w: &Rc<World>, t: &Rc<TaskCtx>, cc: &Rc<ClientCtx>, op: &Op) -> St
                 i.claim_inflight = false;
             }
             txt
+        }
+        Op::ClaimCancel { ch, end, cap, polls } => {
+            let cookie = match end {
+                End::Snd => cc.snd[*ch as usize].with(|e| (matches!(e, SndEnd::Unclaimed(_)), e.cookie().0)),
+                End::Rcv => cc.rcv[*ch as usize].with(|e| (matches!(e, RcvEnd::Unclaimed(_)), e.cookie().0)),
+            };
+            let Some((true, cookie)) = cookie else { return skip(w) };
+            if !w.allow_refused_claims {
+                w.count("excluded:f2");
+                return "excluded:f2".into();
+            }
+            if let Some(i) = w.board.borrow_mut().chans.get_mut(&cookie) {
+                i.claim_attempts += 1;
+            }
+            // poll the claim a few times, then drop the future (and with it the channel end)
+            async fn poll_some<F: Future>(fut: F, polls: u8) -> Option<F::Output> {
+                let mut fut = Box::pin(fut);
+                let mut n = 0;
+                std::future::poll_fn(move |cx| match fut.as_mut().poll(cx) {
+                    Poll::Ready(v) => Poll::Ready(Some(v)),
+                    Poll::Pending => {
+                        if n >= polls {
+                            Poll::Ready(None)
+                        } else {
+                            n += 1;
+                            cx.waker().wake_by_ref();
+                            Poll::Pending
+                        }
+                    }
+                })
+                .await
+            }
+            let done = match end {
+                End::Snd => {
+                    let Some(SndEnd::Unclaimed(u)) = cc.snd[*ch as usize].take() else { return skip(w) };
+                    match t.req("claim_sender(cancelled)", poll_some(u.claim(), *polls)).await {
+                        Some(Ok(s)) => {
+                            if let Some(i) = w.board.borrow_mut().chans.get_mut(&cookie) {
+                                i.claim_ok = true;
+                            }
+                            drop(cc.snd[*ch as usize].put_back(SndEnd::Est(s)));
+                            Some("Ok".to_string())
+                        }
+                        Some(Err(e)) => {
+                            w.count("claim-refused");
+                            Some(err_name(&e))
+                        }
+                        None => None,
+                    }
+                }
+                End::Rcv => {
+                    let Some(RcvEnd::Unclaimed(u)) = cc.rcv[*ch as usize].take() else { return skip(w) };
+                    match t.req("claim_receiver(cancelled)", poll_some(u.claim(CAPS[*cap as usize]), *polls)).await {
+                        Some(Ok(s)) => {
+                            if let Some(i) = w.board.borrow_mut().chans.get_mut(&cookie) {
+                                i.claim_ok = true;
+                            }
+                            drop(cc.rcv[*ch as usize].put_back(RcvEnd::Est(s)));
+                            Some("Ok".to_string())
+                        }
+                        Some(Err(e)) => {
+                            w.count("claim-refused");
+                            Some(err_name(&e))
+                        }
+                        None => None,
+                    }
+                }
+            };
+            match done {
+                Some(txt) => txt,
+                None => {
+                    w.count("claim-cancelled");
+                    w.note_end_teardown(ci, cookie, true);
+                    "cancelled".into()
+                }
+            }
         }
         Op::Establish { ch, end } => match end {
             End::Snd => {
